@@ -128,7 +128,7 @@ def run_case(case):
     def close(a, b):
         a, b = np.asarray(a, float), np.asarray(b, float)
         with np.errstate(invalid="ignore"):
-            return a.shape == b.shape and bool(np.all((np.abs(a - b) <= 1e-10 * (1 + np.abs(b))) | (a == b)))
+            return a.shape == b.shape and bool(np.all((np.isfinite(b) & (np.abs(a - b) <= 1e-10 * (1 + np.abs(b)))) | (a == b)))
 
     unb_lp = jax.jit(lambda x, cc: dist.log_prob(x, cc)) if True else None
     # ---- log_prob: every broadcasting pair
@@ -187,7 +187,7 @@ def run_case(case):
         for idx in np.ndindex(*lead):
             want = float(unb_lp(jnp.asarray(s2[idx]), None if Cb is None else jnp.asarray(Cb[idx])))
             tr += 1
-            if not (abs(lp2[idx] - want) <= 1e-8 * (1 + abs(want))):
+            if not ((np.isfinite(want) and abs(lp2[idx] - want) <= 1e-8 * (1 + abs(want))) or lp2[idx] == want):
                 add("sample|pairing", f"{case['id']}: sample_shape {ss}, condition batch {bc}: log-prob returned with element {idx} is {lp2[idx]!r} but log_prob(sample, condition) there is {want!r}")
                 break
         # independent randomness: standardised residuals pairwise distinct across batch elements
